@@ -202,9 +202,9 @@ Qed.
 Lemma digit_not_space : forall c, is_digit c = true -> is_space c = false.
 Proof.
   intros c H. unfold is_digit in H. apply andb_true_iff in H. destruct H as [A B].
-  apply Z.leb_le in A. apply Z.leb_le in B. unfold is_space.
-  repeat match goal with |- context [?x <=? ?y] => destruct (Z.leb_spec x y) end;
-  repeat match goal with |- context [?x =? ?y] => destruct (Z.eqb_spec x y) end; simpl; try reflexivity; lia.
+  apply Z.leb_le in A. apply Z.leb_le in B.
+  assert (E : c = 48 \/ c = 49 \/ c = 50 \/ c = 51 \/ c = 52 \/ c = 53 \/ c = 54 \/ c = 55 \/ c = 56 \/ c = 57) by lia.
+  repeat (destruct E as [E|E]; [subst; reflexivity|]). subst. reflexivity.
 Qed.
 
 Lemma digit_not_nlcr : forall c, is_digit c = true -> c <> 10 /\ c <> 13.
